@@ -7,9 +7,8 @@ package whispertool
 func vrtLayoutList() []string {
 	if vrt.Tier() == 1 {
 		return []string{
-			"1s:1s", "1s:2s", "1s:6s", "7s:35s", "60s:240s", "3600s:21600s",
-			"1s:2s,2s:6s", "1s:3s,3s:9s", "2s:6s,6s:12s", "60s:120s,120s:360s", "1s:4s,4s:8s", "1s:4s,2s:10s", "5s:30s,20s:80s",
-			"1s:2s,2s:4s,4s:8s", "1s:3s,3s:9s,9s:18s", "1s:4s,2s:10s,10s:30s",
+			"1s:1s", "1s:2s", "5s:15s", "60s:180s", "1s:2s,2s:6s", "1s:3s,3s:9s", "2s:6s,6s:12s", "60s:120s,120s:360s",
+			"1s:6s", "7s:35s", "1s:4s,4s:8s", "1s:2s,2s:4s,4s:8s",
 		}
 	}
 	return []string{"1s:1s", "1s:2s", "5s:15s", "60s:180s", "1s:2s,2s:6s", "1s:3s,3s:9s", "2s:6s,6s:12s", "60s:120s,120s:360s"}
@@ -18,7 +17,7 @@ func vrtLayoutList() []string {
 // vrtChooseHeaderSmall: a reduced family for the path-hungry harnesses in the quick tier.
 func vrtChooseHeaderSmall(method AggregationMethod, xff float32) *Header {
 	if vrt.Tier() == 1 {
-		return vrtChooseHeader(method, xff)
+		return vrtChooseHeaderFrom([]string{"1s:2s", "5s:15s", "1s:2s,2s:6s", "60s:120s,120s:360s", "1s:3s,3s:9s", "1s:2s,2s:4s,4s:8s"}, method, xff)
 	}
 	return vrtChooseHeaderFrom([]string{"1s:2s", "5s:15s", "1s:2s,2s:6s", "60s:120s,120s:360s"}, method, xff)
 }
